@@ -223,6 +223,9 @@ def to_cobra(net, solver="glpk", name="net"):
             victims[0].bounds = (0, 0)
             m.remove_reactions(victims)
             m.objective_direction = "min" if net["dir"] == "max" else "max"
+            if style == 9 and len(m.genes) >= 1:
+                from cobra.manipulation.modify import rename_genes
+                rename_genes(m, {m.genes[0].id: "zz_renamed_gene"})
         # the rollback re-appends the reactions at the end of model.reactions: put the documented order back
         if [r.id for r in m.reactions] != order:
             m.reactions.sort(key=lambda r: order.index(r.id))     # (DictList.sort rebuilds its own index)
